@@ -384,6 +384,11 @@ func vfC12Run(c vfC12Case, ctx *vfCtx) *vfViolation {
 				}
 				if len(newly) > 0 {
 					sort.Slice(newly, func(a, b int) bool { return newly[a] < newly[b] })
+					// KF-2 is about neighbours that drop a vertex again when their lists overflow. A new vertex
+					// that was wired to NOBODY although the graph had vertices is something else.
+					if len(after.Adj0[op.ID]) == 0 && len(before.Adj0) > 0 {
+						return vfFail("op %d: vertex %d was inserted without a single layer-0 edge although %d vertices were resident (%d of them live): it cannot be reached from the entry point %d", i, op.ID, len(before.Adj0), len(m.live)-1, after.Entry)
+					}
 					if ok, why := vfLegitPrune(idx, &before, &after, op.ID); !ok {
 						return vfFail("op %d: inserting %d made live vertices %v unreachable from the entry point %d, and not by nearest-neighbour pruning: %s", i, op.ID, newly, after.Entry, why)
 					}
